@@ -318,7 +318,7 @@ package compose
 //@   ensures[others] cpOf(result) == cpOf(ctx) && ctxValue(result, "stateKey") == ctxValue(ctx, "stateKey")
 //@   ensures[parent_path_untouched] pathOf(ctx) != nil ==> forall(i int :: 0 <= i && i < cap(pathOf(ctx).path) ==> mem(pathOf(ctx).path, i) == old(mem(pathOf(ctx).path, i)))
 
-//@ spec ctxOK(ctx context.Context) bool = is(ctxValue(ctx, "nodePathKey"), "*NodePath") ==> pathOf(ctx) != nil
+//@ spec ctxOK(ctx context.Context) bool = (is(ctxValue(ctx, "nodePathKey"), "*NodePath") ==> pathOf(ctx) != nil) && (is(ctxValue(ctx, "stateKey"), "*internalState") ==> unbox(ctxValue(ctx, "stateKey"), "*internalState") != nil)
 
 //@ func (*runner).createTasks
 //@   props C01 C05 C16
@@ -985,3 +985,110 @@ package compose
 //@     modifies g.startNodes, g.endNodes, elems(g.startNodes), elems(g.endNodes), validateState(g), fresh()
 //@     invariant[types_kept] @C07 typesKept(g)
 //@     invariant[lists] (sameArray(g.startNodes, pre(g.startNodes)) || fresh(g.startNodes)) && (sameArray(g.endNodes, pre(g.endNodes)) || fresh(g.endNodes))
+
+// ---------------------------------------------------------------------------------------------------
+// graph_run.go — calculateNextTasks and the run loop (C01, C06, C10, C13)
+// ---------------------------------------------------------------------------------------------------
+
+//@ spec runnerOK(r *runner) bool = r != nil && branchHandlersOK(r) && r.chanSubscribeTo != nil
+//@ spec tasksOK(r *runner, cm *channelManager, ts []*task, isStream bool) bool = forall(j int :: 0 <= j && j < len(ts) ==> taskOK(r, cm, ts[j], isStream))
+
+//@ func (*runner).calculateNextTasks
+//@   props C01
+//@   requires runnerOK(r) && cmOK(cm) && tablesOK(cm) && handlersOK(cm) && ctxOK(ctx) && cm.isStream == isStream
+//@   requires[tasks] tasksOK(r, cm, completedTasks, isStream)
+//@   modifies fresh(), chanCtl(cm), chanValsContent(cm), chanValsField(cm)
+//@   ensures[end_or_tasks] result2 == nil && result1 != nil ==> len(result0) == 0
+//@   ensures[err] result2 != nil ==> result0 == nil && result1 == nil
+//@   ensures[tasks_wellformed] result2 == nil ==> forall(i int :: 0 <= i && i < len(result0) ==> result0[i] != nil && in(result0[i].nodeKey, cm.channels) && result0[i].call == r.chanSubscribeTo[result0[i].nodeKey] && result0[i].option == optMap[result0[i].nodeKey] && !result0[i].skipPreHandler && cpOf(result0[i].ctx) == nil)
+//@   ensures[ok] cmOK(cm)
+
+//@ func (*runner).initTaskManager
+//@   props C03 C09
+//@   requires r != nil
+//@   ensures[fresh] result != nil && fresh(result) && result.num == 0 && result.needAll == !r.eager && result.opts == opts
+
+//@ func (*runner).initChannelManager
+//@   props C09
+//@   trusted builds one fresh channel per subscribed node plus END with the compile-time predecessor tables (loops over maps calling the channel builder); the freshness claims are not yet verified
+//@   requires r != nil
+//@   ensures[fresh] result != nil && fresh(result) && cmOK(result) && tablesOK(result) && handlersOK(result) && result.isStream == isStream
+//@   ensures[channels] fresh(result.channels) && forall(k string :: in(k, r.chanSubscribeTo) ==> in(k, result.channels))
+
+//@ func onGraphStart
+//@   trusted runs the graph-level start callbacks (user handlers); returns the possibly replaced context and input
+//@   ensures[ctx] ctxOK(result0) == ctxOK(ctx) && cpOf(result0) == cpOf(ctx) && pathOf(result0) == pathOf(ctx) && ctxValue(result0, "stateKey") == ctxValue(ctx, "stateKey")
+//@   ensures[stream] isStream ==> is(result1, "streamReader")
+//@ func onGraphEnd
+//@   trusted runs the graph-level end callbacks (user handlers)
+//@ func onGraphError
+//@   trusted runs the graph-level error callbacks (user handlers)
+//@   ensures[err] result1 != nil
+
+//@ func (*taskManager).submit
+//@   props C03 C11
+//@   trusted the concurrent task protocol is the subject of C03 (not yet under contract): pre-processors run, tasks are started
+//@   requires t != nil
+//@   modifies t.num, region("F|compose.task|input"), region("GHOST|")
+//@ func (*taskManager).wait
+//@   props C03
+//@   trusted see submit
+//@   requires t != nil
+//@   modifies t.num, region("F|compose.task|output"), region("F|compose.task|err"), region("GHOST|")
+//@   ensures[tasks] result1 == nil && forall(i int :: 0 <= i && i < len(result0) ==> result0[i] != nil) && (result0 == nil || fresh(result0))
+//@ func (*taskManager).waitAll
+//@   props C03
+//@   trusted see submit
+//@   requires t != nil
+//@   modifies t.num, region("F|compose.task|output"), region("F|compose.task|err"), region("GHOST|")
+//@   ensures[tasks] result1 == nil && forall(i int :: 0 <= i && i < len(result0) ==> result0[i] != nil) && (result0 == nil || fresh(result0))
+
+//@ func (*checkPointer).restoreCheckPoint
+//@   trusted converts checkpointed values back to streams in stream mode (C05, C12)
+//@   requires c != nil && cp != nil
+//@ func (*checkPointer).convertCheckPoint
+//@   trusted converts stream values to concatenated values for the checkpoint (C05, C12)
+//@   requires c != nil && cp != nil
+//@ func (*checkPointer).set
+//@   trusted serialises the checkpoint and writes it to the user's store (C12)
+//@   requires c != nil
+//@ func getCheckPointFromStore
+//@   trusted reads and deserialises a checkpoint from the user's store (C12)
+//@   ensures[ok] err == nil && cp != nil ==> allocated(cp)
+//@ func getStateModifier
+//@   props C11
+//@   trusted pure context lookup
+//@   pure
+//@ func setStateModifier
+//@   props C11
+//@   ensures[others] cpOf(result) == cpOf(ctx) && pathOf(result) == pathOf(ctx) && ctxValue(result, "stateKey") == ctxValue(ctx, "stateKey") && fresh(result)
+
+//@ modset chanFields(c *channelManager) = forall(k string :: in(k, c.channels) && is(c.channels[k], "*dagChannel") ==> fields(asDag(c.channels[k]))), forall(k string :: in(k, c.channels) && is(c.channels[k], "*pregelChannel") ==> fields(asPregel(c.channels[k])))
+
+//@ func (*channelManager).loadChannels
+//@   props C05
+//@   requires c != nil && c.channels != nil && forall(k string :: in(k, c.channels) ==> c.channels[k] != nil)
+//@   modifies chanFields(c)
+//@   loop 1:
+//@     modifies chanFields(c)
+
+//@ func (*runner).handleInterrupt
+//@   props C06 C05
+//@   requires r != nil && r.checkPointer != nil && ctxOK(ctx) && forall(i int :: 0 <= i && i < len(nextTasks) ==> nextTasks[i] != nil)
+//@   ghost setCalls int = 0
+//@   at call r.checkPointer.set: ghost setCalls++
+//@   at call r.checkPointer.convertCheckPoint: assert[inputs_saved] forall(i int :: 0 <= i && i < len(nextTasks) ==> in(nextTasks[i].nodeKey, cp.Inputs)) && cp.Channels == channels
+//@   ensures[always_error] result != nil
+//@   ensures[subgraph] isSubGraph && is(result, "*subGraphInterruptError") ==> unbox(result, "*subGraphInterruptError").Info != nil && unbox(result, "*subGraphInterruptError").Info.BeforeNodes == interruptBeforeNodes && unbox(result, "*subGraphInterruptError").Info.AfterNodes == interruptAfterNodes && unbox(result, "*subGraphInterruptError").CheckPoint != nil
+//@   ensures[reported] !isSubGraph && is(result, "*interruptError") ==> unbox(result, "*interruptError").Info != nil && unbox(result, "*interruptError").Info.BeforeNodes == interruptBeforeNodes && unbox(result, "*interruptError").Info.AfterNodes == interruptAfterNodes
+//@   ensures[kind] isSubGraph ==> !is(result, "*interruptError")
+//@   ensures[kind2] !isSubGraph ==> !is(result, "*subGraphInterruptError")
+//@   ensures[no_set_for_subgraph] isSubGraph ==> setCalls == 0
+//@   ensures[no_set_without_id] checkPointID == nil ==> setCalls == 0
+//@   ensures[set_when_interrupt_reported] !isSubGraph && checkPointID != nil && is(result, "*interruptError") ==> setCalls == 1
+//@   ensures[set_only_once] setCalls <= 1
+//@   modifies fresh()
+//@   loop 1:
+//@     modifies fresh()
+//@     invariant[cp] cp != nil && fresh(cp) && cp.Inputs != nil && fresh(cp.Inputs) && cp.Channels == channels && intInfo != nil && fresh(intInfo) && intInfo.BeforeNodes == interruptBeforeNodes && intInfo.AfterNodes == interruptAfterNodes
+//@     invariant[inputs_saved] forall(i int :: 0 <= i && i < $i ==> in(nextTasks[i].nodeKey, cp.Inputs))
